@@ -163,3 +163,39 @@ def option_walks_items(dot_path: str):
 def ring_programs(dump_path: str):
     progs = list(leaf_programs(dump_path, var="prog", is_leaf=leaf_has_op))
     return progs, {}
+
+
+# ------------------------------------------------------------ C05 division pairs
+def divide_pairs(dump_path: str):
+    """The (dividend, divisor) pairs TLC enumerates as initial states of spec/Divide.tla."""
+    pairs, seen = [], set()
+    for st in tlaval.parse_dump(dump_path, variables={"dividend", "divisor", "quotient", "orig", "done"}):
+        if st["quotient"] != [] or st["done"] or st["dividend"] != st["orig"]:
+            continue
+        key = repr((st["dividend"], st["divisor"]))
+        if key not in seen:
+            seen.add(key)
+            pairs.append({"dividend": st["dividend"], "divisor": st["divisor"]})
+    return pairs, {"pairs": len(pairs)}
+
+
+def _tla_poly(f):
+    """TLA+ function <<e0,e1>> -> <<n,d>> (or <<>> for zero) to a 0-d float polynomial in q0, q1."""
+    if not f:
+        rows, coefs = [[0, 0]], [[0.0]]
+    else:
+        rows = [list(k) for k in f]
+        coefs = [[v[0] / v[1]] for v in f.values()]
+    return build_poly({"shape": [], "names": [0, 1], "rows": rows, "coefs": coefs, "dtype": "float64"})
+
+
+def run_divide_pair(pair, tid: str, prop: str, variant: int = 0) -> dict:
+    reset_options()
+    rec = Recorder(tid, prop, timeout_s=20.0)
+    n = rec.new(_tla_poly(pair["dividend"]), note="dividend")
+    d = rec.new(_tla_poly(pair["divisor"]), note="divisor")
+    fn = ("divmod", "divmod", "divide", "remainder")[variant % 4]
+    sp = ("function", "operator")[(variant // 4) % 2]
+    rec.do("polydiv", [n, d], keep=False, fn=fn, spelling=sp, capped=False, digs=[], iterations=0)
+    rec.meta["source"] = "Divide"
+    return rec.to_json()
